@@ -38,6 +38,9 @@ static void check_dims(const DataArray &a, const std::vector<Expect> &ex) {
             nixsym_assert(off == e.offset, "offset reads back");
             nixsym_assert((e.label.empty() ? !s.label() : (s.label() && *s.label() == e.label)), "sampled label reads back");
             nixsym_assert((e.unit.empty() ? !s.unit() : (s.unit() && *s.unit() == e.unit)), "sampled unit reads back");
+        } else if (e.kind == 4) {
+            nixsym_assert(d.dimensionType() == DimensionType::Range && d.asRangeDimension().alias(), "kind reads back (alias range)");
+            nixsym_assert(d.asRangeDimension().ticks() == e.ticks, "alias ticks are the array's data");
         } else if (e.kind == 3) {
             nixsym_assert(d.dimensionType() == DimensionType::DataFrame, "kind reads back (data frame)");
             boost::optional<unsigned> ci = d.asDataFrameDimension().columnIndex();
@@ -93,6 +96,41 @@ extern "C" void vh_c13_append() {
     drop_handles(w); a = none; w.f.close();
     File g = File::open(WORLD_FILE, FileMode::ReadOnly);
     check_dims(g.getBlock("blk").getDataArray("cube"), ex);
+    nixsym_reach("reopened");
+}
+
+// histories with deleteDimensions on a 1-D array, where an alias is legal exactly while there is no descriptor: every step is
+// observed through the handle that made the change AND through a freshly obtained one, then after reopen
+#ifndef VH_ASTEPS
+#define VH_ASTEPS 3
+#endif
+extern "C" void vh_c13_alias_history() {
+    nixsym_declare_reach("aliased"); nixsym_declare_reach("deleted"); nixsym_declare_reach("reopened");
+    World w;
+    build_world(w);
+    DataArray a = w.b.createDataArray("line", "t", DataType::Double, NDSize({3}));
+    { std::vector<double> v = {1.0, 2.0, 4.0}; a.setData(v); }
+    std::vector<Expect> ex;
+    for (int step = 0; step < VH_ASTEPS; step++) {
+        uint32_t op = nixsym_choice("op", 4);
+        Expect e; e.kind = 0; e.has_offset = false; e.interval = 0; e.offset = 0; e.col = 0;
+        bool valid = true, ok = false;
+        try {
+            if (op == 0) { e.kind = 0; e.labels.push_back("la"); a.appendSetDimension(e.labels); }
+            else if (op == 1) { e.kind = 2; e.interval = 0.5; e.offset = 1.0; e.label = "time"; e.unit = "s"; a.appendSampledDimension(e.interval, e.label, e.unit, e.offset); }
+            else if (op == 2) { a.deleteDimensions(); }
+            else { e.kind = 4; e.ticks = {1.0, 2.0, 4.0}; valid = ex.empty(); a.appendAliasRangeDimension(); }
+            ok = true;
+        } catch (const std::exception &) { ok = false; }
+        nixsym_assert(ok == valid, "an alias is accepted exactly on a 1-D array without descriptors; the other steps always succeed");
+        if (ok && op == 2) { ex.clear(); nixsym_reach("deleted"); }
+        else if (ok) { ex.push_back(e); if (op == 3) nixsym_reach("aliased"); }
+        check_dims(a, ex);
+        check_dims(w.b.getDataArray("line"), ex);
+    }
+    drop_handles(w); a = none; w.f.close();
+    File g = File::open(WORLD_FILE, FileMode::ReadOnly);
+    check_dims(g.getBlock("blk").getDataArray("line"), ex);
     nixsym_reach("reopened");
 }
 
